@@ -93,4 +93,7 @@ MUTATIONS = [
          old="        if len(state) >= max_splits:\n            return []", new="        if len(state) >= min(max_splits, 1):\n            return []"),
     dict(prop="C11", name="audit-tie-split-at-most-two-splits", file="partitura/utils/music.py",
          old="        if len(state) >= max_splits:\n            return []", new="        if len(state) >= min(max_splits, 2):\n            return []"),
+    # round-4 seed: a note held across a bar line on which the divisions change
+    dict(prop="C11", name="r4-tie-notes-tail-piece-with-divisions-of-the-head", file="partitura/score.py",
+         old="                note_end.t - next_measure.start.t, next_measure.start.quarter\n", new="                note_end.t - next_measure.start.t, cur_note.start.quarter\n"),
 ]
